@@ -176,6 +176,9 @@ def run(ctx):
         infoL = cc.run_driver(ctx, binp, {"mode": "info", "powers": powers, "byz": [], "maxround": 16}, "infoL")
         if (tuple(powers), infoL["names"].index(byzl[0])) in covered:
             continue
+        if 3 * sum(infoL["powers"][b] for b in byzl) >= sum(infoL["powers"].values()):
+            log("library group %s/%s skipped: the faulty validators hold 1/3 or more of the power" % (powers, byzl))
+            continue
         scheds = [{"id": 400000 + 10 * k + rep, "steps": a["steps"]} for k, a in enumerate(lst) for rep in range(3)]
         inp = {"mode": "replay", "powers": powers, "byz": byzl, "maxround": 14, "scheds": scheds, "synctail": True,
                "syncmax": 2 * len(powers), "byzafter": True, "random": 20 if quick else 500, "randlen": 70}
